@@ -127,6 +127,72 @@ theorem schema_facts :
     schemaHas "openapiGeneratorConfig.securitySchemes[].type" "Type" "string" "required,security_schema_type" = true := by
   decide +kernel
 
+/-! ### `controllerGlobs` -/
+
+def isMeta (c : Char) : Bool := c = '*' || c = '?'
+
+/-- a component without `*` / `?` selects exactly itself -/
+theorem segMatch_literal (p s : Str) (h : p.all (fun c => !isMeta c) = true) : segMatch p s = true ↔ p = s := by
+  induction p generalizing s with
+  | nil => cases s <;> simp [segMatch]
+  | cons c ps ih =>
+    simp only [List.all_cons, Bool.and_eq_true, Bool.not_eq_true', isMeta, Bool.or_eq_false_iff, decide_eq_false_iff_not] at h
+    obtain ⟨⟨hc1, hc2⟩, hps⟩ := h
+    cases s with
+    | nil =>
+      constructor
+      · intro hm; unfold segMatch at hm; split at hm <;> simp_all
+      · intro he; cases he
+    | cons d ds =>
+      have hstep : segMatch (c :: ps) (d :: ds) = (c == d && segMatch ps ds) := by
+        conv => lhs; unfold segMatch
+        split <;> simp_all
+      rw [hstep]
+      simp only [Bool.and_eq_true, beq_iff_eq, List.cons.injEq]
+      rw [ih ds (by simpa [isMeta] using hps)]
+
+/-- `*` selects every component (and, being matched component-wise, never reaches across a separator) -/
+theorem segMatch_star (s : Str) : segMatch ['*'] s = true := by
+  unfold segMatch
+  simp only [List.any_eq_true, List.mem_range]
+  refine ⟨s.length, by omega, ?_⟩
+  simp [segMatch]
+
+/-- a `**` component stands for ZERO directories … -/
+theorem doublestar_zero (ps s : List Str) (h : segsMatch ps s = true) : segsMatch (['*', '*'] :: ps) s = true := by
+  unfold segsMatch
+  simp only [if_true, List.any_eq_true, List.mem_range]
+  exact ⟨0, by omega, by simpa using h⟩
+
+/-- … or for one more directory than it already does -/
+theorem doublestar_more (ps : List Str) (d : Str) (s : List Str) (h : segsMatch (['*', '*'] :: ps) s = true) :
+    segsMatch (['*', '*'] :: ps) (d :: s) = true := by
+  unfold segsMatch at h ⊢
+  simp only [if_true, List.any_eq_true, List.mem_range] at h ⊢
+  obtain ⟨k, hk, hm⟩ := h
+  exact ⟨k + 1, by simp only [List.length_cons]; omega, by simpa using hm⟩
+
+/-- a pattern of plain components selects exactly the path with those components -/
+theorem segsMatch_literal (ps s : List Str) (h : ∀ p ∈ ps, p.all (fun c => !isMeta c) = true) :
+    segsMatch ps s = true ↔ ps = s := by
+  induction ps generalizing s with
+  | nil => cases s <;> simp [segsMatch]
+  | cons p ps ih =>
+    have hp := h p (by simp)
+    have hne : p ≠ ['*', '*'] := by
+      intro he; subst he; simp [isMeta] at hp
+    cases s with
+    | nil => simp [segsMatch, hne]
+    | cons c cs =>
+      unfold segsMatch
+      simp only [hne, if_false, Bool.and_eq_true, List.cons.injEq]
+      rw [segMatch_literal p c hp, ih cs (fun q hq => h q (by simp [hq]))]
+
+/-- the shapes the generated configurations use, on the generated tree -/
+example : globMatch "./ctl/**/*.go".toList "ctl/a.go".toList = true ∧ globMatch "./ctl/**/*.go".toList "ctl/sub/deep/d.go".toList = true ∧
+    globMatch "./ctl/*.go".toList "ctl/sub/c.go".toList = false ∧ globMatch "./ctl/{a,b}.go".toList "ctl/b.go".toList = true ∧
+    globMatch "./ctl/{a,b}.go".toList "ctl/sub/c.go".toList = false ∧ globMatch "**/d.go".toList "ctl/sub/deep/d.go".toList = true := by decide
+
 end Gleece.Config
 
 namespace Gleece.Order
